@@ -244,7 +244,8 @@ def py_spec(a, b):
     if isnum(a) and isnum(b):
         return sign(a, b)
     if isinstance(a, datetime.date) and isinstance(b, datetime.date):
-        return sign(a, b)
+        mid = lambda d: d if isinstance(d, datetime.datetime) else datetime.datetime(d.year, d.month, d.day)     # a date is its midnight
+        return sign(mid(a), mid(b))
     if isinstance(a, list) and isinstance(b, list):
         for x, y in zip(a, b):
             c = py_spec(x, y)
